@@ -261,7 +261,9 @@ theorem leafStep_est (g : Gid) (c : CtxId) (l : Leaf) (w : World) :
   | obs => cases h : tlGet g ctxKey w <;> simp [leafStep, h, emit]
   | set k x => exact ⟨rfl, rfl, rfl, rfl⟩
   | get k => exact ⟨rfl, rfl, rfl, rfl⟩
+  | del k => exact ⟨rfl, rfl, rfl, rfl⟩
   | push l => exact ⟨rfl, rfl, rfl, rfl⟩
+  | pop => cases h : (w.ctxs c).stack <;> simp [leafStep, h, ctxUpd]
   | deftype n => cases h : (w.ctxs c).loader <;> simp [leafStep, h]
   | load n =>
     cases h2 : (w.ctxs c).loader <;> cases h1 : loadEntry w.defs (w.ctxs c).loader n <;> rw [h2] at h1 <;>
@@ -275,12 +277,12 @@ theorem stepG_spec_start {gid ctx0 : Nat} {pn : Bool} {k : List Frame} {w : Worl
   have hgl := hg.glt
   simp only at hgl hc0 hne hpn hk
   have e : stepG ⟨gid, ctx0, false, pn, k⟩ w =
-      { g := ⟨gid, ctx0, true, pn, k⟩, w := setVar ctx0 tagKey (1000 + gid) (note gid ctx0 (tlFresh gid ctx0 w)) } := by
+      { g := ⟨gid, ctx0, true, pn, k⟩, w := setTag ctx0 (1000 + gid) (note gid ctx0 (tlFresh gid ctx0 w)) } := by
     simp [stepG, tlSet_tlInit]
   rw [e]
   have s1 : Step none w (tlFresh gid ctx0 w) := tlFresh_step hinv hgl (not_pend_of_nil hp _)
   have s2 := note_step (g := gid) s1.inv hc0 (not_pendc_of_nil hp _) hne
-  have s3 := setVar_step (c := ctx0) (k := tagKey) (x := 1000 + gid) s2.inv
+  have s3 := setTag_step (c := ctx0) (x := 1000 + gid) s2.inv
   refine mkSpec (x := some ctx0) hp (((s1.trans s2 (fun _ _ h => h)).weaken).trans s3 (fun _ _ h => h)) ?_ (Nat.le_refl _)
     ?_ rfl rfl rfl hgl rfl ?_
   · simp only [Bool.false_eq_true, if_false]
@@ -289,7 +291,7 @@ theorem stepG_spec_start {gid ctx0 : Nat} {pn : Bool} {k : List Frame} {w : Worl
     have : i = ctx0 := by simpa using hi.symm
     exact Or.inr ⟨rfl, this⟩
   · subst hk
-    refine ⟨by simp [tlGet, setVar, ctxUpd, note, tlFresh, aget], by simp [setVar, ctxUpd, note], rfl⟩
+    refine ⟨by simp [tlGet, setVar, setTag, ctxUpd, note, tlFresh, aget], by simp [setVar, setTag, ctxUpd, note], rfl⟩
 
 theorem mkSpecS {gid ctx0 : Nat} {pn : Bool} {k : List Frame} {w w' : World} {x : Option CtxId} {pn' : Bool} {k' : List Frame}
     (hp : w.pending = []) (hgl : gid < w.nextGid) (s : Step x w w') (l : Loc gid none w w')
@@ -473,8 +475,8 @@ theorem stepG_spec_run {gid ctx0 : Nat} {k : List Frame} {p : Prog} {c : CtxId} 
     · simp only [tlGet, tl, e1]; exact hk
   | doctx id p =>
     have sF : Step none w (forkCtx c w).2 := forkCtx_step hinv
-    have sV : Step (some w.nextCtx) (forkCtx c w).2 (setVar w.nextCtx tagKey id (forkCtx c w).2) := setVar_step sF.inv
-    obtain ⟨save, w2, he, sp⟩ := dwcEnter_spec (g := gid) (cx := w.nextCtx) (w := setVar w.nextCtx tagKey id (forkCtx c w).2)
+    have sV : Step (some w.nextCtx) (forkCtx c w).2 (setTag w.nextCtx id (forkCtx c w).2) := setTag_step sF.inv
+    obtain ⟨save, w2, he, sp⟩ := dwcEnter_spec (g := gid) (cx := w.nextCtx) (w := setTag w.nextCtx id (forkCtx c w).2)
       sV.inv hp hgl (Nat.lt_succ_self _) (fun g' => ctx_fresh_not_estab hinv g')
     have e : stepG ⟨gid, ctx0, true, false, .run (.doctx id p) c :: k⟩ w =
         { g := ⟨gid, ctx0, true, false, .run p w.nextCtx :: .restoreCtx save :: k⟩, w := w2 } := by
@@ -484,7 +486,7 @@ theorem stepG_spec_run {gid ctx0 : Nat} {k : List Frame} {p : Prog} {c : CtxId} 
       (sF.weaken.trans sV (fun _ _ h => h)).trans sp.s (fun _ _ _ => by simp)
     refine mkSpecS (x := some w.nextCtx) hp hgl sAll ?_ ?_ ?_ ?_ ?_
     · refine Loc.fresh (cx := w.nextCtx) ?_ (Nat.le_refl _)
-      exact (Loc.trans (w := w) (w1 := setVar w.nextCtx tagKey id (forkCtx c w).2) (Loc.of_same rfl rfl rfl) sp.l
+      exact (Loc.trans (w := w) (w1 := setTag w.nextCtx id (forkCtx c w).2) (Loc.of_same rfl rfl rfl) sp.l
         (Nat.le_succ _))
     · rw [sp.nl]; exact Nat.le_succ _
     · intro i hi hlt
@@ -549,13 +551,13 @@ theorem stepG_spec_normal {gid ctx0 : Nat} {k : List Frame} {w : World}
       have sF : Step none w (forkCtx root w).2 := forkCtx_step hinv
       obtain ⟨save, w2, he, sp⟩ := dwcEnter_spec (g := gid) (cx := w.nextCtx) (w := (forkCtx root w).2)
         sF.inv hp hgl (Nat.lt_succ_self _) (fun g' => ctx_fresh_not_estab hinv g')
-      have sV := setVar_step (c := w.nextCtx) (k := tagKey) (x := id) sp.s.inv
+      have sV := setTag_step (c := w.nextCtx) (x := id) sp.s.inv
       have e : stepG ⟨gid, ctx0, true, false, .parent id ctch p root :: k⟩ w =
           { g := ⟨gid, ctx0, true, false, .run p w.nextCtx :: .restoreCtx save :: ((if ctch then [Frame.catchK] else []) ++ k)⟩,
-            w := setVar w.nextCtx tagKey id w2 } := by
+            w := setTag w.nextCtx id w2 } := by
         simp [stepG, he]
       rw [e]
-      have sAll : Step (some w.nextCtx) w (setVar w.nextCtx tagKey id w2) :=
+      have sAll : Step (some w.nextCtx) w (setTag w.nextCtx id w2) :=
         ((sF.trans sp.s (fun _ _ h => h)).weaken).trans sV (fun _ _ h => h)
       refine mkSpecS (x := some w.nextCtx) hp hgl sAll ?_ ?_ ?_ ?_ ?_
       · refine Loc.fresh (cx := w.nextCtx) ?_ (Nat.le_refl _)
@@ -574,7 +576,7 @@ theorem stepG_spec_normal {gid ctx0 : Nat} {k : List Frame} {w : World}
         · show (tlGet gid ctxKey w2).isSome = true
           rw [sp.cur]; rfl
         · rw [hsave]
-          have hk' : StackOK gid (setVar w.nextCtx tagKey id w2).estab (some root) k :=
+          have hk' : StackOK gid (setTag w.nextCtx id w2).estab (some root) k :=
             StackOK.mono sAll.estMono (hcur ▸ hk)
           cases ctch
           · exact hk'
